@@ -40,8 +40,13 @@ def task_for(kinds, scripts, rng, base=None, nthreads=1, gran="sync", libkw=Fals
             kw = kw + [rng.choice(LIB_KW)]
         subs.append({"S": rng.choice([0, 0, 10]), "script": [SCRIPT[c] for c in sc], "dur": rng.choice([0, 30, 50]),
                      "nargs": rng.choice([0, 1, 2, 3]), "kwnames": kw, "thread": i % nthreads})
+    # nested retry layers multiply: the horizon must cover every attempt (duration + back-off + poll interval)
+    attempts = 1
+    for k in kinds:
+        attempts *= {"retry2": 2, "retry3": 3}.get(k, 1)
+    horizon = 6000 + attempts * (len(scripts) + 1) * 600
     p = {"base": base or rng.choice(["sync", "pool", "pool"]), "workers": rng.choice([1, 2, 3]),
-         "layers": [dict(KINDS[k]) for k in kinds], "subs": subs, "horizon": 6000}
+         "layers": [dict(KINDS[k]) for k in kinds], "subs": subs, "horizon": horizon}
     strat = ["random", rng.randrange(10 ** 9), 0.6] if rng.random() < 0.75 else ["pct", rng.randrange(10 ** 9), 3, 400]
     return {"scen": "stack", "params": p, "strat": strat, "gran": gran,
             "facts": {"libkw": libkw, "depth": len(kinds)}}
